@@ -102,59 +102,119 @@ def r41(ctx, prog):
         ctx.check(good, 'R4.1', 'HashMapContext::iter_variables:closure', 'listing', 'the listing yields (name.clone(), value.clone()) for every entry', span=f.span)
 
 
+def map_model(hit, existing, log):
+    """abstract std::collections::HashMap for one key: `hit` says whether the key is present (holding `existing`); every lookup
+    records the key it used, every mutation is logged: ('overwrite', value) | ('insert', key, value) | ('remove', key).
+    Writes through a reference obtained from get_mut / OccupiedEntry::get_mut show up as '<store>' effects on `existing`."""
+    ENTRY = 'std::collections::hash_map::Entry'
+
+    def hook(it, fn, t, args):
+        c = t['callee']
+        d, nm = c['def'], c['name']
+        if c.get('local') or not ('HashMap' in d or 'hash_map' in d):
+            return None
+        if 'OccupiedEntry' in d:
+            if nm in ('get', 'get_mut', 'into_mut'):
+                return existing
+            if nm == 'insert':
+                log.append(('overwrite', args[1]))
+                return existing
+            if nm in ('remove', 'remove_entry'):
+                log.append(('remove', None))
+                return existing
+            return UNK
+        if 'VacantEntry' in d:
+            key = args[0][2][1] if args and args[0][0] == 'app' and len(args[0][2]) == 2 else UNK
+            if nm == 'insert':
+                log.append(('insert', key, args[1]))
+                return args[1]
+            if nm in ('key', 'into_key'):
+                return key
+            return UNK
+        if 'Entry<' in d or d.split('::<')[0].endswith('Entry'):
+            key = args[0][4][0][2][1] if args and args[0][0] == 'adt' and args[0][4] and args[0][4][0][0] == 'app' else UNK
+            if nm == 'or_insert' and len(args) == 2:
+                if hit:
+                    return existing
+                log.append(('insert', key, args[1]))
+                return args[1]
+            if nm == 'key':
+                return key
+            return UNK
+        if nm in ('get', 'get_mut', 'get_key_value') and len(args) == 2:
+            log.append(('lookup', args[1]))
+            return SOME(existing) if hit else NONE
+        if nm == 'contains_key' and len(args) == 2:
+            log.append(('lookup', args[1]))
+            return C(bool(hit))
+        if nm == 'entry' and len(args) == 2:
+            log.append(('lookup', args[1]))
+            tok = ('app', 'entry', (args[0], args[1]))
+            return ADT(ENTRY, 0, 'Occupied', [tok]) if hit else ADT(ENTRY, 1, 'Vacant', [tok])
+        if nm == 'insert' and len(args) == 3:
+            log.append(('lookup', args[1]))
+            log.append(('overwrite', args[2]) if hit else ('insert', args[1], args[2]))
+            return SOME(existing) if hit else NONE
+        if nm in ('remove', 'remove_entry') and len(args) == 2:
+            log.append(('remove', args[1]))
+            return SOME(existing) if hit else NONE
+        if nm in ('len', 'is_empty', 'capacity', 'reserve', 'shrink_to_fit'):
+            return None
+        return UNK
+    return hook
+
+
 def r42(ctx, prog):
     f = ctx_method(prog, 'HashMapContext', 'set_value', 'context::ContextWithMutableVariables')
     if f is None:
         ctx.unrecognised('R4.2', 'HashMapContext::set_value', 'missing', 'method not found')
         return
     val = prog.adt(tables.VALUE)
-    names = [v['name'] for v in val['variants']]
     n = 0
+    ident = SYM('identifier')
+
+    def writes(eff, log, existing):
+        """mutations of the map on one path: overwrites of the existing slot (through a reference or the map API), inserts, removals"""
+        out = [('overwrite', e[2][1]) for e in eff if e[0] == '<store>' and e[2][0] == existing]
+        out += [x for x in log if x[0] in ('overwrite', 'insert', 'remove')]
+        other = [e for e in eff if e[0] in ('<store>', '<store-field>') and not (e[0] == '<store>' and e[2][0] == existing)]
+        return out, other
     # lookup hit: existing value of variant i, new value of variant j
     for vi in val['variants']:
         for vj in val['variants']:
             existing = ADT(val['path'], vi['idx'], vi['name'], [SYM('old_payload')] if vi['fields'] else [])
             new = ADT(val['path'], vj['idx'], vj['name'], [SYM('new_payload')] if vj['fields'] else [])
-
-            def hook(it, fn, t, args, existing=existing):
-                c = t['callee']
-                if c['name'] in ('get_mut', 'get') and 'HashMap' in c['def']:
-                    return SOME(existing)
-                return None
-            ps = Interp(prog, hook=hook).paths(f, [SYM('self'), SYM('identifier'), new])
+            log = []
+            ps = Interp(prog, hook=map_model(True, existing, log)).paths(f, [SYM('self'), ident, new])
+            ps = [p for p in ps if p[0] != ('diverge',)]
             n += 1
             inst = 'set_value[%s<-%s]' % (vi['name'], vj['name'])
             if len(ps) != 1:
                 ctx.violation('R4.2', inst, 'value-dependent', 'assignment outcome depends on more than the two types (%d paths; e.g. tuple length or emptiness)' % len(ps), span=f.span)
                 continue
             ret, eff = ps[0]
-            stores = [e for e in eff if e[0] in ('<store>', '<store-field>')]
-            inserts = [e for e in eff if not e[0].startswith('<') and e[0].split('::')[-1] in ('insert', 'remove', 'clear', 'entry')]
+            w, other = writes(eff, log, existing)
+            keys = {fmt(x[1]) for x in log if x[0] == 'lookup'}
             if vi['name'] == vj['name']:
-                good = ret == OK(('tuple', ())) and len(stores) == 1 and stores[0][0] == '<store>' and stores[0][2] == (existing, new) and not inserts
-                ctx.check(good, 'R4.2', inst, 'overwrite', 'same type: the stored value is overwritten with the new value (whatever its length/content) and Ok(()) is returned (returns %s, stores %d, inserts %d)' % (fmt(ret), len(stores), len(inserts)), span=f.span)
+                good = ret == OK(('tuple', ())) and w == [('overwrite', new)] and not other and keys == {fmt(ident)}
+                ctx.check(good, 'R4.2', inst, 'overwrite', 'same type: the value stored under the identifier is overwritten with the new value (whatever its length/content) and Ok(()) is returned (returns %s, map writes %s, keys %s)' % (fmt(ret), [(x[0], fmt(x[-1])) for x in w], sorted(keys)), span=f.span)
             else:
                 want_err = 'Expected' + vi['name']
-                good = is_adt(ret, 'result::Result', 'Err') and is_adt(ret[4][0], 'error::EvalexprError', want_err) and ret[4][0][4] == (new,) and not stores and not inserts
-                ctx.check(good, 'R4.2', inst, 'type-error', 'different type: Err(%s { actual: new value }) and nothing is written (returns %s, stores %d, inserts %d)' % (want_err, fmt(ret), len(stores), len(inserts)), span=f.span)
+                good = is_adt(ret, 'result::Result', 'Err') and is_adt(ret[4][0], 'error::EvalexprError', want_err) and ret[4][0][4] == (new,) and not w and not other
+                ctx.check(good, 'R4.2', inst, 'type-error', 'different type: Err(%s { actual: new value }) and nothing is written (returns %s, map writes %s)' % (want_err, fmt(ret), [(x[0], fmt(x[-1])) for x in w]), span=f.span)
     # lookup miss
-
-    def hook_miss(it, fn, t, args):
-        c = t['callee']
-        if c['name'] in ('get_mut', 'get') and 'HashMap' in c['def']:
-            return NONE
-        return None
-    ps = Interp(prog, hook=hook_miss).paths(f, [SYM('self'), SYM('identifier'), SYM('value')])
+    log = []
+    ps = [p for p in Interp(prog, hook=map_model(False, UNK, log)).paths(f, [SYM('self'), ident, SYM('value')]) if p[0] != ('diverge',)]
     n += 1
     good = len(ps) == 1 and ps[0][0] == OK(('tuple', ()))
     if good:
-        ins = [e for e in ps[0][1] if not e[0].startswith('<') and e[0].split('::')[-1] == 'insert']
-        good = len(ins) == 1 and ins[0][2] == (('proj', SYM('self'), ('variables',)), SYM('identifier'), SYM('value'))
-    ctx.check(good, 'R4.2', 'set_value[miss]', 'insert', 'unknown name: (identifier, value) is inserted into `variables` and Ok(()) returned', span=f.span)
-    # the lookup itself: get_mut(variables, &identifier)
-    ps = Interp(prog).paths(f, [SYM('self'), SYM('identifier'), SYM('value')])
-    look = {(e[0].split('::')[-1], e[2]) for ret, eff in ps for e in eff if not e[0].startswith('<') and e[0].split('::')[-1] in ('get_mut', 'get')}
-    ctx.check(look == {('get_mut', (('proj', SYM('self'), ('variables',)), SYM('identifier')))}, 'R4.2', 'set_value[lookup]', 'lookup', 'the existing value is looked up in `variables` under the identifier being assigned (found %s)' % [(a, [fmt(x) for x in b]) for a, b in look], span=f.span)
+        w, other = writes(ps[0][1], log, UNK)
+        good = w == [('insert', ident, SYM('value'))] and not other and {fmt(x[1]) for x in log if x[0] == 'lookup'} <= {fmt(ident)}
+    ctx.check(good, 'R4.2', 'set_value[miss]', 'insert', 'unknown name: (identifier, value) is inserted into `variables` and Ok(()) returned (map log %s)' % [(x[0], [fmt(y) for y in x[1:] if y is not None]) for x in log], span=f.span)
+    # the map consulted is the context's variable map
+    ps = Interp(prog).paths(f, [SYM('self'), ident, SYM('value')])
+    maps = {fmt(e[2][0]) for ret, eff in ps for e in eff if not e[0].startswith('<') and 'HashMap' in e[0] and e[0].split('::')[-1] in ('get_mut', 'get', 'entry', 'insert', 'contains_key') and e[2]}
+    ctx.check(maps == {fmt(('proj', SYM('self'), ('variables',)))}, 'R4.2', 'set_value[lookup]', 'lookup', 'the existing value is looked up in, and written to, `self.variables` only (found %s)' % sorted(maps), span=f.span)
     ctx.counters['set_value_cases'] = n
     ctx.floor('R4.2', 'set_value_cases', n, 37)
 
@@ -211,11 +271,14 @@ def r44(ctx, prog):
             def hook(it, fn, t, args, world=world, log=log):
                 c = t['callee']
                 if c.get('local') and c['name'] == 'eval' and 'Operator' in c['def']:
-                    log.append(('eval', args[0], args[1]))
                     k = args[0][3] if args[0][0] == 'adt' else '?'
                     if k == 'VariableIdentifierRead':
-                        return ERR(SYM('read_error')) if world == 'read-fails' else OK(SYM('old_value'))
+                        return None  # followed: the read is observed at Context::get_value
+                    log.append(('eval', args[0], args[1]))
                     return ERR(SYM('op_error')) if world == 'op-fails' else OK(SYM('op_result'))
+                if path_endswith(c.get('trait') or '', 'context::Context') and c['name'] == 'get_value':
+                    log.append(('get_value', args[1]))
+                    return NONE if world == 'read-fails' else SOME(SYM('old_value'))
                 if path_endswith(c.get('trait') or '', 'context::ContextWithMutableVariables') and c['name'] == 'set_value':
                     log.append(('set_value', args[1], args[2]))
                     return ERR(SYM('write_error')) if world == 'write-fails' else OK(('tuple', ()))
@@ -249,17 +312,19 @@ def r44(ctx, prog):
             want_op = ASSIGN_OP[v['name']]
             evs = [x for x in log if x[0] == 'eval']
             sets = [x for x in log if x[0] == 'set_value']
+            gets = [x for x in log if x[0] == 'get_value']
+            not_found = ERR(ADT('error::EvalexprError', [x for x in prog.adt('error::EvalexprError')['variants'] if x['name'] == 'VariableIdentifierNotFound'][0]['idx'], 'VariableIdentifierNotFound', [SYM('target')]))
             if world == 'read-fails':
-                good = kinds == ['eval'] and evs[0][1][3] == 'VariableIdentifierRead' and ret == ERR(SYM('read_error'))
-                what = 'a failing read of X is returned and nothing else happens'
+                good = kinds == ['get_value'] and gets[0][1] == SYM('target') and ret == not_found
+                what = 'a failing read of X is VariableIdentifierNotFound(X) and nothing else happens'
             elif world == 'op-fails':
-                good = kinds == ['eval', 'eval'] and ret == ERR(SYM('op_error')) and not sets
+                good = kinds == ['get_value', 'eval'] and ret == ERR(SYM('op_error')) and not sets
                 what = 'a failing operation is returned and X is not written'
             else:
-                good = kinds == ['eval', 'eval', 'set_value']
+                good = kinds == ['get_value', 'eval', 'set_value']
                 if good:
-                    rd, opx, st = evs[0], evs[1], sets[0]
-                    good = rd[1][3] == 'VariableIdentifierRead' and rd[1][4] == (SYM('target'),)
+                    rd, opx, st = gets[0], evs[0], sets[0]
+                    good = rd[1] == SYM('target')
                     good = good and opx[1][0] == 'adt' and opx[1][3] == want_op
                     good = good and operands_are(opx[2], SYM('old_value'), SYM('rhs'), live[0][1])
                     good = good and st[1] == SYM('target') and st[2] == SYM('op_result')
